@@ -24,6 +24,7 @@ that the deeper clauses stay observable; such observations carry detail['observe
 attributed to a mechanism by counterfactual replay with harness-side neutralisers (never used for the verdict).
 """
 import math
+import os
 
 import numpy as np
 
@@ -48,43 +49,39 @@ REQUIRED_MONITORS = ["grad_compared", "grad_compared_density_outputs", "scf_back
                      "picard_calls", "rho1_backward_calls", "rho2_backward_calls", "degen_symeig_backward_calls",
                      "force_dirs_compared", "hessian_entries_compared", "rho_hook_checked"]
 CASE_TIMEOUT = 900.0
-import os as _os
-
-BUDGET_S = {"quick": float(_os.environ.get("VERIF_C07_BUDGET", 200)), "thorough": float(_os.environ.get("VERIF_C07_BUDGET", 1700))}
+# cases not started by then are skipped and reported (VERIF_C07_BUDGET overrides, for runs on a loaded machine)
+BUDGET_S = {"quick": float(os.environ.get("VERIF_C07_BUDGET", 200)), "thorough": float(os.environ.get("VERIF_C07_BUDGET", 1700))}
 MIN_NONTRIVIAL = 4
 
+DENSITY_OUTPUTS = ("gap", "emo", "q")
 TOL_G = 1e-5          # |g_AD - g_FD| <= TOL_G * max(1, |g_FD|)  (+ LAG_SB2 for density outputs of the unrolled mode)
 # Unrolled back-propagation differentiates the finite iteration: its derivative lags the iterate by one accelerated
 # step, so its error is L * e_{K-1}, where e_{K-1} (the error of the last iterate that did NOT pass the stopping rule
 # max|dP| <= 15 eps) is only bounded by sqrt(15 eps) for a quadratically convergent accelerator; Lipschitz allowance 4.
 # Measured on the corrected tree: up to 9e-6 (HCl, PM6_SP, Pulay) against 3e-10 for the implicit mode.
-LAG_SB2 = 4.0 * math.sqrt(15.0 * 1e-11)
-
-
-def _tol(out, sb, r):
-    return TOL_G * max(1.0, abs(r)) + (LAG_SB2 if (sb == 2 and out in DENSITY_OUTPUTS) else 0.0)
+EPS = 1e-11
+LAG_SB2 = 4.0 * math.sqrt(15.0 * EPS)
 TOL_F_ABS, TOL_F_REL = 5e-6, 1e-6
 TOL_H_SYM = 1e-8
 TOL_H_REL = 2e-5      # * max|H|
 TOL_FREQ = 1e-3       # relative, modes above 300 cm-1
 TOL_HOOK = 1e-4       # relative, derivative of additive-term forward
-EPS = 1e-11
 FD_STEPS = (1e-3, 5e-4, 2.5e-4)   # relative to |theta| per atom
 MIN_SPACING = 0.15    # eV; below this the 5th derivative of an orbital energy makes the Richardson difference itself
                       # inaccurate (measured: spacing 0.053 eV -> FD error 3e-6, identical for every backward mode)
 CONVS = [[0, 0.3], [1], [2]]
 MODES = ["leaf", "nonleaf", "callable"]
-DENSITY_OUTPUTS = ("gap", "emo", "q")
-RHO_NAMES = ("h_sp", "zeta_s", "zeta_p", "g_pp", "g_p2")
-DOUBLE_NAMES = ("g_ss", "g_pp", "g_p2", "h_sp")
+PAIR_NAME = "Kbeta"   # pair-level scaling of the resonance integrals, shape (npairs, 4); not in parameterlist
 
-# learnable names per method (copied from the package's own list at run time; this is only the quick-tier order)
-PAIR_NAME = "Kbeta"
+
+def _tol(out, sb, r):
+    return TOL_G * max(1.0, abs(r)) + (LAG_SB2 if (sb == 2 and out in DENSITY_OUTPUTS) else 0.0)
 
 
 # =========================================================================================
 # case generation (parent process: numpy only)
 # =========================================================================================
+# learnable names per method = seqm.basics.parameterlist[method] (compared with it at run time, see obs)
 _POOL = {
     "MNDO": ["NH3", "HCN", "LiH", "CH3Cl", "H2O", "H2S"],
     "AM1": ["H2O", "CH2O", "NH3", "HCl", "HCN", "H2S"],
@@ -152,7 +149,7 @@ def gen_cases(tier, seed):
     for mol, method in sym:
         cases.append({"kind": "param", "mol": mol, "method": method, "geom_seed": 0, "sigma": 0.0,
                       "names": ["U_ss", "beta_p", "g_ss", "g_pp", "h_sp", "zeta_p"],
-                      "configs": [["leaf", 1, 2], ["nonleaf", 2, 2]] if tier == "quick" else
+                      "configs": [["leaf", 1, 2], ["nonleaf", 2, 1]] if tier == "quick" else
                                  [["leaf", 1, 2], ["nonleaf", 2, 2], ["callable", 1, 1], ["leaf", 2, 0]],
                       "dir_seed": int(g.integers(0, 2**31))})
     # --- forces with a callable (parameters depend on the geometry)
@@ -546,6 +543,11 @@ def _run_param(case):
     # learnable here = non-zero for at least one atom
     names = [n for n in names_all if float(base[n].abs().max()) > 0]
     skipped_zero = [n for n in names_all if n not in names]
+    try:
+        from seqm.basics import parameterlist
+        not_driven = sorted(set(parameterlist[method]) - set(_NAMES[method]))
+    except Exception:
+        not_driven = ["<parameterlist not importable>"]
     if not names:
         return {"ineligible": "all parameters of the chunk are zero for these elements"}
     g = np.random.default_rng(case["dir_seed"])
@@ -827,6 +829,7 @@ def _run_param(case):
     mon["fd_energy_evaluations"] = mon.get("fd_energy_evaluations", 0)
     return {"nontrivial": ncomp[2] > 0, "violations": viol, "margins": margins, "monitors": mon, "cells": cells,
             "obs": {"names": names, "zero_for_these_elements": skipped_zero, "fd_unusable": fd_bad,
+                    "package_parameterlist_names_not_in_harness_list": not_driven,
                     "min_orbital_spacing_eV": spacing, "compared": ncomp[0], "compared_density": ncomp[1],
                     "fd_nonzero": ncomp[2], "worst": margins,
                     "fd_sample": {n: {k: fd[n][k][0] for k in fd[n]} for n in list(fd)[:2]}}}
